@@ -227,6 +227,8 @@ def rule_r1(facts):
                     e = err_edge_of_match(b, mbb, st)
                     if e is None:
                         continue
+                    if flow.reaches_ok(b, e) and _returns_it(b, cdom, e, t.dest.local):
+                        continue        # the inspected Result itself is what the function returns on this edge
                     if flow.reaches_ok(b, e):
                         key = (fn, cal)
                         if key in SWALLOW_OK:
@@ -242,6 +244,33 @@ def rule_r1(facts):
     r.samples.append({"fallible call sites": n, "accepted swallowing idioms matched": sorted("%s <- %s" % k for k in swallow_seen)})
     r.need("at least 120 fallible call sites", n >= 120)
     return r
+
+
+def _returns_it(b, c, start, local):
+    """Every value returned on the paths from `start` is the Result held in `local` (moved or copied, unchanged)."""
+    reach = c.reachable_from(start)
+    seen = False
+    aliases = {local}
+    changed = True
+    while changed:
+        changed = False
+        for x in sorted(reach):
+            for st in b.blocks[x].stmts:
+                if st.k == "assign" and not st.place.proj and st.rv.k == "use" and st.rv.op.place is not None and \
+                        not st.rv.op.place.proj and st.rv.op.place.local in aliases and st.place.local not in aliases and st.place.local != 0:
+                    aliases.add(st.place.local)
+                    changed = True
+    for x in reach:
+        for st in b.blocks[x].stmts:
+            if st.k == "assign" and st.place.local == 0 and not st.place.proj:
+                if st.rv.k == "use" and st.rv.op.place is not None and not st.rv.op.place.proj and st.rv.op.place.local in aliases:
+                    seen = True
+                else:
+                    return False
+        tt = b.blocks[x].term
+        if tt.k == "call" and tt.dest.local == 0 and not tt.dest.proj:
+            return False
+    return seen
 
 
 def check_cursor_reader(facts, body, t, r, fn, cal, where):
